@@ -1153,6 +1153,8 @@ pub fn worker_ucisample(prop: &str, shard: usize, _nshards: usize, seed: u64, ti
                         tries += 1;
                         let Some(p) = gen::family_nth(fam, rng.next() % gen::family_size(fam)) else { continue };
                         if !p.has_legal_move() || chess_oracle::solve::has_mate_in_1(&p) || tries > 3000 {
+                            // the property speaks of a fresh table: reset before every root
+                            cmds.push(Cmd::NewGame);
                             cmds.push(Cmd::Position(Root { fen: fen::render6(&p, 0, 1), moves: vec![] }));
                             break;
                         }
